@@ -176,6 +176,18 @@ def normInf (abs : α → α) (max : α → α → α) (zero : α) (t : PTree α
 
 end reductions
 
+/-- `reduce(Vector.__add__, forest)`: left fold of `tree_map(add, ·, ·)`; `none` = structure mismatch -/
+def sumTrees {α : Type} [Add α] : PTree α → List (PTree α) → Option (PTree α)
+  | acc, [] => some acc
+  | acc, t :: ts => match PTree.map₂ (· + ·) acc t with
+    | some r => sumTrees r ts
+    | none => none
+
+/-- `forest_math.mean(forest) = (1/len(forest)) * reduce(add, forest)` -/
+def meanTrees {α : Type} [Add α] [Mul α] (inv : α) : List (PTree α) → Option (PTree α)
+  | [] => none
+  | t :: ts => (sumTrees t ts).map (PTree.map fun x => inv * x)
+
 /-! ### complex leaves: Gaussian integers (exact in complex128) -/
 
 structure GInt where
